@@ -182,7 +182,7 @@ def check_tree(ctx, case, tree, spec, ref: Ref, soma_ok: bool):
         sh = Sholl(tree)
         rmax = float(ref.d.max())
         close(ctx, "Sholl.rmax", sh.rmax, rmax, scale)
-        exact = case["tree"]["geom"] == "pythag"
+        exact = case["tree"]["geom"] == "pythag" and not case.get("_derived")
         radii = list(rng.uniform(0, rmax * 1.1, 6))
         if exact:  # radii exactly on node distances, and half-way between
             ds = sorted(set(ref.d.tolist()))
@@ -322,6 +322,10 @@ def check_tree(ctx, case, tree, spec, ref: Ref, soma_ok: bool):
 def exec_tree(ctx, case):
     spec = G.spec_from_recipe(case["tree"])
     tree = G.build(spec, with_tag=False, frozen_ok=True)
+    if case["seed"] % 5 == 0:
+        # a tree the library derived (sorted / re-rooted / grown by a merged node) from a used one
+        tree, spec = G.derive(tree, spec, int(case["seed"]))
+        case = dict(case, _derived=True)  # (a re-rooted lattice no longer has exact distances)
     n = len(spec["pid"])
     xyz = np.stack([spec["x"], spec["y"], spec["z"]], axis=1)
     ref = Ref(spec["pid"], xyz)
